@@ -239,3 +239,24 @@ void h_mark(void) {
   ASSERT(cv_mk_calls == N && (N == 0 || cv_mk_hits == 1), "[C01] List_Mark passes every element to the callback exactly once");
   COVER(1, "mark done");
 }
+
+/* C14: show of a container writes each element's own show text exactly once, in iteration order, separated by ", ";
+ * the position returned by each piece is the position of the next (print_to is cut by a recording contract) */
+static int cv_sh_calls, cv_sh_elems, cv_sh_seps, cv_sh_bad, cv_sh_pos; static var cv_sh_out; static var cv_sh_seq[8];
+static int cv_sh_streq(const char* a, const char* b) { size_t i = 0; while (a[i] != 0 && a[i] == b[i]) i++; return a[i] == b[i]; }
+int print_to_with(var out, int pos, const char* fmt, var args) {
+  if (out != cv_sh_out || pos != cv_sh_pos) cv_sh_bad++;
+  cv_sh_calls++;
+  if (cv_sh_streq(fmt, "%$")) { if (cv_sh_elems < 8) cv_sh_seq[cv_sh_elems] = ((struct Tuple*)args)->items[0]; if (cv_sh_seps != cv_sh_elems - (cv_sh_elems > 0 ? 0 : 0) && cv_sh_seps != cv_sh_elems) cv_sh_bad++; cv_sh_elems++; }
+  else if (cv_sh_streq(fmt, ", ")) { cv_sh_seps++; if (cv_sh_seps != cv_sh_elems) cv_sh_bad++; }
+  cv_sh_pos += 1 + (cv_sh_calls % 3);
+  return cv_sh_pos;
+}
+void h_show(void) {
+  arbitrary_list(); cv_sh_out = &X; cv_sh_pos = nondet_int(); __CPROVER_assume(cv_sh_pos >= 0 && cv_sh_pos < 1000); int p0 = cv_sh_pos;
+  int r = List_Show(l, cv_sh_out, p0);
+  ASSERT(cv_sh_elems == N && cv_sh_seps == (N ? N - 1 : 0) && cv_sh_bad == 0, "[C14] show of a List writes every element's show text once, in order, separated by commas, each piece at the position the previous one returned");
+  for (int j = 0; j < N; j++) ASSERT(cv_sh_seq[j] == old_node[j], "[C14] the j-th text shown is the j-th element's");
+  ASSERT(r == cv_sh_pos && cv_sh_calls == N + (N ? N - 1 : 0) + 2, "[C14] show returns the position after the closing bracket");
+  COVER(1, "show done");
+}
